@@ -17,7 +17,8 @@ Kinds == %(kinds)s
 VARIABLES K, hist
 vars == <<K, hist>>
 Init == K = InitK /\ hist = <<>>
-Alive == K.L.panic = ""
+\* breadth-first depth bound (hist is not part of the view: the first visit of a state is a shortest one)
+Alive == K.L.panic = "" /\ Len(hist) < %(depth)d
 \* the arbitrary environment: any event kind for any key regardless of the physical state, no bound on pending events
 In(k, c) == /\ Alive
             /\ K' = HandleInput(K, k, c)
@@ -42,31 +43,33 @@ INVARIANT PanicProbe
 def instances(tier):
     row = "(layer-while-held l1) (layer-while-held l2) (one-shot 2 (layer-while-held l1))"
     I = [
-        {"name": "layers", "keys": ["a", "b", "c"], "kinds": ["d", "u", "p"],
+        {"name": "layers", "depth": (6, 8), "keys": ["a", "b", "c"], "kinds": ["d", "u", "p"],
          "kbd": "(defsrc a b c)\n(deflayer l0 %s)\n(deflayer l1 %s)\n(deflayer l2 %s)\n" % (row, row, row),
          "caps": {}, "scaled": {"rep": 5}},
-        {"name": "index_rpt", "keys": ["a", "b", "c", "d"], "kinds": ["d", "u"],
+        {"name": "index_rpt", "depth": (6, 9), "keys": ["a", "b", "c", "d"], "kinds": ["d", "u"],
          "kbd": "(defsrc a b c d)\n(deflayer l0 (tap-dance 2 ()) (tap-dance-eager 2 ()) (multi rpt-any) (fork rpt-any x (lsft)))\n",
          "caps": {}},
-        {"name": "wdelay", "keys": ["a", "b", "c"], "kinds": ["d", "u"],
+        {"name": "wdelay", "depth": (7, 10), "keys": ["a", "b", "c"], "kinds": ["d", "u"],
          "kbd": "(defcfg rapid-event-delay 2)\n(defsrc a b c)\n(deflayer l0 (tap-hold 0 2 x y) (tap-hold 0 2 z w) (one-shot 2 lsft))\n",
          "caps": {"u16max": 3},
          "scaled": {"tick": 21845,
                     "kbd": "(defcfg rapid-event-delay 43690)\n(defsrc a b c)\n(deflayer l0 (tap-hold 0 43690 x y) (tap-hold 0 43690 z w) (one-shot 43690 lsft))\n"}},
-        {"name": "wrapping", "keys": ["a", "b", "c"], "kinds": ["d", "u", "p"],
+        {"name": "wrapping", "depth": (6, 8), "keys": ["a", "b", "c"], "kinds": ["d", "u", "p"],
          "kbd": "(defsrc a b c)\n(deflayer l0 (macro x y) (one-shot 2 lsft) (multi lctl lalt))\n", "caps": {}},
     ]
     if tier != "quick":
-        I.append({"name": "chords_td", "keys": ["a", "b", "c"], "kinds": ["d", "u", "p"],
+        I.append({"name": "chords_td", "depth": (6, 8), "keys": ["a", "b", "c"], "kinds": ["d", "u", "p"],
                   "kbd": "(defsrc a b c)\n(defchords cg 2 (a) x (b) y (a b) z)\n(deflayer l0 (chord cg a) (chord cg b) (tap-dance 2 (x y)))\n",
                   "caps": {"u16max": 3}})
-        I.append({"name": "switch_layers", "keys": ["a", "b", "c"], "kinds": ["d", "u"],
+        I.append({"name": "switch_layers", "depth": (6, 8), "keys": ["a", "b", "c"], "kinds": ["d", "u"],
                   "kbd": "(defsrc a b c)\n(deflayer l0 (layer-while-held l1) (switch (a) x break () (layer-while-held l1) fallthrough) (macro-repeat x))\n"
                          "(deflayer l1 _ _ (layer-while-held l1))\n", "caps": {"hist": 1}})
     return I
 
 
-def check_arb(inst, wd, workers, timeout):
+def check_arb(inst, wd, workers, timeout, depth):
+    """TLC on one capacity instance, breadth first up to `depth` events.  A timeout is not an error: the PANIC
+    probes printed so far are shortest witnesses of the levels completed (reported as complete = False)."""
     t0 = time.time()
     codes = [cfgdesc.code(k) for k in inst["keys"]]
     dump, kbd = dump_cfg(inst["kbd"], codes, wd, "c02cap_" + inst["name"])
@@ -76,14 +79,15 @@ def check_arb(inst, wd, workers, timeout):
     consts += "\nBugDef == " + tla_val("none")
     mod = "MC_c02cap_" + inst["name"]
     text = MC_ARB % dict(mod=mod, consts=consts, keys="{" + ", ".join(str(k) for k in codes) + "}",
-                         kinds="{" + ", ".join('"%s"' % k for k in inst["kinds"]) + "}")
+                         kinds="{" + ", ".join('"%s"' % k for k in inst["kinds"]) + "}", depth=depth)
     open(os.path.join(wd, mod + ".tla"), "w").write(text)
     open(os.path.join(wd, mod + ".cfg"), "w").write(MC_ARB_CFG)
-    r = run_tlc(wd, mod, workers=workers, timeout=timeout, heap="6g")
-    if r["rc"] == 124:
-        raise ToolError("TLC timed out on %s" % mod)
-    if r["error"] and not r["violated"]:
+    r = run_tlc(wd, mod, workers=workers, timeout=timeout, heap="4g")
+    timed_out = r["rc"] in (124, 137)
+    if not timed_out and r["error"] and not r["violated"]:
         raise ToolError("TLC error on %s: %s (see %s)" % (mod, r["error"], r["out"]))
+    if not timed_out and r["distinct"] is None:
+        raise ToolError("TLC produced no result on %s (rc=%s, see %s)" % (mod, r["rc"], r["out"]))
     pf = os.path.join(wd, mod + ".panic.ndjson")
     n = extract_prints(r["out"], "PANIC", pf)
     sites = {}
@@ -92,8 +96,15 @@ def check_arb(inst, wd, workers, timeout):
         s = sites.get(w["site"])
         if s is None or len(w["h"]) < len(s):
             sites[w["site"]] = w["h"]
-    return {"name": inst["name"], "states": r["distinct"] or 0, "generated": r["generated"] or 0, "depth": r["depth"],
-            "panic_states": n, "sites": sites, "wall_s": round(time.time() - t0, 1), "caps": caps, "kbd": inst["kbd"]}
+    states, generated = r["distinct"] or 0, r["generated"] or 0
+    if timed_out:       # last progress line
+        for line in open(r["out"], errors="replace"):
+            m = re.match(r"Progress\((\d+)\).*?: ([\d,]+) states generated.*?, ([\d,]+) distinct states found", line)
+            if m:
+                generated, states = int(m.group(2).replace(",", "")), int(m.group(3).replace(",", ""))
+    return {"name": inst["name"], "states": states, "generated": generated, "depth": r["depth"], "depth_bound": depth,
+            "complete": not timed_out, "panic_states": n, "sites": sites, "wall_s": round(time.time() - t0, 1),
+            "tlc_wall_s": round(r["wall_s"], 1), "caps": caps, "kbd": inst["kbd"]}
 
 
 def hist_steps(h, rep=1, tick=1):
@@ -118,14 +129,22 @@ def capacity_submodel(tier, seed, wd, acc, run_all, mkjob, notes):
     t0 = time.time()
     insts = instances(tier)
     out = {"instances": [], "states": 0, "generated": 0, "sites_in_model": {}, "caps": CAPS}
-    with concurrent.futures.ThreadPoolExecutor(max_workers=3) as ex:
-        futs = [ex.submit(check_arb, i, wd, 4, 240 if tier == "quick" else 1500) for i in insts]
-        results = [f.result() for f in futs]
+    # one instance at a time with 8 TLC workers (the machine is shared); every instance is depth bounded, and a
+    # timeout keeps the witnesses of the completed levels instead of failing the check
+    budget = 100 if tier == "quick" else 1200
+    results = []
+    for i in insts:
+        left = budget - (time.time() - t0)
+        r = check_arb(i, wd, 8, max(20, min(60 if tier == "quick" else 420, int(left))), i["depth"][0 if tier == "quick" else 1])
+        results.append(r)
+        if not r["complete"]:
+            notes.append("capacity sub-model: TLC timed out on instance %s at depth bound %d after %d states (machine load?); "
+                         "the witnesses of the completed levels are used" % (i["name"], r["depth_bound"], r["states"]))
     jobs = []
     for inst, r in zip(insts, results):
         out["states"] += r["states"]
         out["generated"] += r["generated"]
-        out["instances"].append({k: r[k] for k in ("name", "states", "generated", "depth", "panic_states", "wall_s")}
+        out["instances"].append({k: r[k] for k in ("name", "states", "generated", "depth", "depth_bound", "complete", "panic_states", "tlc_wall_s", "wall_s")}
                                 | {"sites": sorted(r["sites"])})
         for site, h in r["sites"].items():
             scripts = [("model-witness", hist_steps(h))]
